@@ -190,6 +190,35 @@ def run(prop, tier, seed, known):
                     if a != label_at(x, xl, mid) or b != label_at(y, yl, mid):
                         fails.append('merge_labeled_intervals(%s, %s): piece [%s,%s] carries (%s,%s)' % (x, y, s, e, a, b))
                         break
+        # annotations with internal gaps (the quantifier includes them): the boundaries are still exactly the end points of both inputs and
+        # every piece inside an input interval carries its label; which label a piece inside a gap shows is not asserted
+        gapped = [a for a in anns if a and any(x[1] < y[0] for x, y in zip(a, a[1:]))]
+        n_gap = 0
+        for x in gapped:
+            for y in [a for a in anns if a]:
+                if not (x[0][0] == y[0][0] and x[-1][1] == y[-1][1]):
+                    continue
+                for p, q in ((x, y), (y, x)):
+                    n += 1
+                    n_gap += 1
+                    pl = ['x%d' % i for i in range(len(p))]
+                    ql = ['y%d' % i for i in range(len(q))]
+                    try:
+                        out, opl, oql = util.merge_labeled_intervals(np.array(p), pl, np.array(q), ql)
+                    except Exception as ex:
+                        fails.append('merge_labeled_intervals raised %s on aligned annotations %s %s' % (type(ex).__name__, p, q))
+                        continue
+                    out = out.tolist()
+                    bounds = sorted({t for r in p + q for t in r})
+                    if out != [[a, b] for a, b in zip(bounds, bounds[1:])]:
+                        fails.append('merge_labeled_intervals(%s, %s) = %s is not the common refinement (boundaries %s)' % (p, q, out, bounds))
+                        continue
+                    for (s_, e_), a, b in zip(out, opl, oql):
+                        mid = (s_ + e_) / 2
+                        wa, wb = label_at(p, pl, mid), label_at(q, ql, mid)
+                        if (wa is not None and a != wa) or (wb is not None and b != wb):
+                            fails.append('merge_labeled_intervals(%s, %s): piece [%s,%s] carries (%s,%s)' % (p, q, s_, e_, a, b))
+                            break
         # boundaries that are not multiples of 1e-5 (and pairs closer than 1e-5): the refinement keeps every input boundary exactly
         import random as _random
         rng = _random.Random(7)
@@ -221,7 +250,7 @@ def run(prop, tier, seed, known):
                     fails.append('merge_labeled_intervals(%s, %s): piece [%s,%s] carries (%s,%s)' % (x, y, s_, e_, a, b))
                     break
         bounded.append(dict(name='util.merge_labeled_intervals: common refinement, per-piece labels of both annotations, duration conserved, ValueError iff misaligned',
-                            bound='all pairs of %d contiguous annotations on the lattice, plus 60 random pairs with boundaries off the 1e-5 grid' % len(contiguous), cases=n, exhaustive=True, failures=fails[:3],
+                            bound='all pairs of %d contiguous annotations on the lattice, %d aligned pairs with an internal gap in one annotation, plus 60 random pairs with boundaries off the 1e-5 grid' % (len(contiguous), n_gap), cases=n, exhaustive=True, failures=fails[:3],
                             wall_s=round(time.time() - t0, 2)))
         all_fails += fails
         # ---- interpolate_intervals / intervals_to_samples
